@@ -131,6 +131,8 @@ class C11(object):
                 frames.append(im.ravel().tolist())
             return {"entry": "SparseScan.cplabel", "ns": ns, "nf": nf, "kind": "scan", "frames": frames,
                     "threshold": rnd.choice([0.0, 5.0, 12.0]), "countall": rnd.random() < 0.5,
+                    "window": ([rnd.randint(1, 3), rnd.randint(1, 4), rnd.random() < 0.5] if rnd.random() < 0.4 else None),
+                    "relabel_first": rnd.random() < 0.3,
                     "cfg": enginea.draw_cfg(rnd, max_team=4), "gstyle": 0, "image": [], "cut": 0.0}
         if rnd.random() < 0.04:
             # sparseframe story: a frame cut at t_lo (carrying that threshold as metadata) is labelled with the default
@@ -348,12 +350,41 @@ class C11(object):
         enginea.apply_cfg(sim, cfg, strict=0, track_conflicts=0, step_cap=50000000)
         sim.begin_run()
         viol = None
+        win = desc.get("window")      # only a window of the frames in the file is loaded: [start, start+n)
+        if win and win[0] < len(ims) and any(nnz[:win[0]]):
+            w0, w1 = win[0], min(len(ims), win[0] + win[1])
+        else:
+            win, w0, w1 = None, 0, len(ims)
+        relabel_fail = None
         with contextlib.redirect_stdout(io.StringIO()):
-            sc = self.sf.SparseScan(p, "1.1")
+            if win is None:
+                sc = self.sf.SparseScan(p, "1.1")
+            elif win[2]:
+                sc = self.sf.SparseScan(p, "1.1::[%d:%d]" % (w0, w1))
+            else:
+                sc = self.sf.SparseScan(p, "1.1", start=w0, n=w1 - w0)
+            ims, nnz = ims[w0:w1], nnz[w0:w1]
+            if desc.get("relabel_first"):
+                # the scan was labelled before with another threshold and its frames were looked at: the labelling that
+                # follows, and the frames handed out after it, are those of the new threshold
+                sc.cplabel(threshold=th + 7.0, countall=not desc["countall"])
+                for q in range(len(ims)):
+                    sc.getframe(q)
             sc.cplabel(threshold=th, countall=desc["countall"])
             fr0 = sc.getframe(0)
+            if desc.get("relabel_first"):
+                for q in range(len(ims)):
+                    fq = sc.getframe(q)
+                    if fq is not None and "labels" in fq.pixels and \
+                            not np.array_equal(np.asarray(fq.pixels["labels"]), np.asarray(sc.labels)[sc.ipt[q]:sc.ipt[q + 1]]):
+                        relabel_fail = q
+                        break
             n0 = self.sf.sparse_connected_pixels(fr0, threshold=th) if fr0 is not None else 0
         st = sim.stats()
+        if relabel_fail is not None:
+            viol = {"class": "partition-differs", "key": "SparseScan.cplabel:partition-differs",
+                    "detail": "after labelling the scan again with another threshold, getframe(%d) still hands out the labels of the "
+                              "earlier labelling" % relabel_fail}
         off, pos = 0, 0
         lab_all = np.asarray(sc.labels)
         for k, im in enumerate(ims):
